@@ -114,7 +114,7 @@ def strip_xml(line):
     return line.split(" xml=")[0].rstrip()
 
 
-def check_programs(rep, progs, tag, classify=None):
+def check_programs(rep, progs, tag, classify=None, src_chunks=None):
     """Runs writer programs on implementation (debug + release) and model; checks the
     property directly on the implementation (read-back equals input) and the
     correspondence (results, every device byte, operation count, write log, read-back)."""
@@ -122,7 +122,10 @@ def check_programs(rep, progs, tag, classify=None):
     impl_rel = core.ensure_harness("release")
     lines = ["- " + " ".join(item_tok(i) for i in items) for items in progs]
     mlines = ["- " + " ".join(item_tok(i, model=True) for i in items) for items in progs]
-    o_impl = core.run_cases(impl, ["FW " + l for l in lines])
+    # src_chunks[i] = n: in the debug-profile run every blob / image source hands out at most n bytes per read
+    # (the release-profile run and the model get the whole data at once: all three must agree)
+    ft = lambda i: "-s%d" % src_chunks[i] if src_chunks and src_chunks[i] else "-"
+    o_impl = core.run_cases(impl, ["FW " + ft(i) + l[1:] for i, l in enumerate(lines)])
     o_rel = core.run_cases(impl_rel, ["FW " + l for l in lines])
     xmls = [parse_fw(o)[3] for o in o_impl]
     o_model = core.run_cases(core.DRIVER, ["FW %s X:%s" % (l, x) for l, x in zip(mlines, xmls)])
@@ -146,13 +149,14 @@ def check_programs(rep, progs, tag, classify=None):
         if bad:
             n_dir += 1
             cls = classify(items, bad) if classify else tag + "-roundtrip"
-            rep.violation(cls, bad, dict(kind="writer-program", items=[item_tok(x) for x in items]))
+            rep.violation(cls, bad + (" [sources hand out at most %d bytes per read]" % src_chunks[i] if src_chunks and src_chunks[i] else ""),
+                          dict(kind="writer-program", items=[item_tok(x) for x in items], src_chunk=(src_chunks[i] if src_chunks else None)))
         elif strip_xml(o_impl[i]) != o_model[i].rstrip() or strip_xml(o_rel[i]) != strip_xml(o_impl[i]):
             n_corr += 1
             which = "debug/release" if strip_xml(o_rel[i]) != strip_xml(o_impl[i]) else "model/implementation"
             rep.violation("correspondence-" + tag, "%s differ on a writer program (file bytes, results, device operations or read-back): impl=%s | model=%s" %
                           (which, strip_xml(o_impl[i])[:200], o_model[i][:200]),
-                          dict(kind="writer-program", items=[item_tok(x) for x in items],
+                          dict(kind="writer-program", items=[item_tok(x) for x in items], src_chunk=(src_chunks[i] if src_chunks else None),
                                failing="correspondence file-level writer/reader model vs implementation"), no_input=True)
     return o_impl, n_dir, n_corr
 
